@@ -227,7 +227,7 @@ def cyclic_case(rng, res, cyc_stream, intern, label):
   if make_cycle:
     c = rng.choice(containers)
     # an ancestor of c (or c itself)
-    ancestors = [x for x in c02.reachable(root) if c in c02.reachable(x) and c02.is_mutable_node(x)]
+    ancestors = [x for x in c02.reachable(root) if c02.contains(x, c) and c02.is_mutable_node(x)]
     a = rng.choice(ancestors)
     if isinstance(c, list):
       c.append(a)
